@@ -560,3 +560,77 @@ Proof.
   pose proof (close_buckets_tail_nonempty L 0 []) as Ht.
   destruct (close_buckets L 0 []) as [|b r]; [constructor|]. constructor; [exact Hh|exact Ht].
 Qed.
+
+(** * the "no tie" rows of the CPLEX model lose no optimum when tying is never cheaper than the average of the
+    two strict orders *)
+Section NoTie.
+  Variables (K : table) (n : nat).
+  Hypothesis M : mirror K.
+  Hypothesis HT : forall i j, (i < j < n)%nat -> let '(b, a, t) := K i j in b + a <= 2 * t.
+
+  (** two tie-free refinements of a position function: ties broken by increasing / decreasing element id *)
+  Definition up (p : posf) : posf := fun x => p x * (Z.of_nat n) + Z.of_nat x.
+  Definition down (p : posf) : posf := fun x => p x * (Z.of_nat n) + (Z.of_nat n - 1 - Z.of_nat x).
+
+  Lemma refine_sum p : scoref K (seq 0 n) (up p) + scoref K (seq 0 n) (down p) <= 2 * scoref K (seq 0 n) p.
+  Proof.
+    unfold scoref. rewrite <- zsum_map_add'.
+    assert (E : 2 * zsum (map (fun xy => pickf K p (fst xy) (snd xy)) (ordpairs (seq 0 n)))
+                = zsum (map (fun xy => 2 * pickf K p (fst xy) (snd xy)) (ordpairs (seq 0 n)))).
+    { generalize (ordpairs (seq 0 n)). induction l as [|a l IH]; [reflexivity|]. cbn [map]. rewrite !zsum_cons, <- IH. lia. }
+    rewrite E. apply zsum_le. intros [i j] Hij. cbn [fst snd]. apply ordpairs_seq_lt in Hij.
+    assert (L : (i < j < n)%nat) by lia. specialize (HT i j L). unfold pickf, up, down. destruct (K i j) as [[b a] t].
+    destruct (Z.compare_spec (p i) (p j)) as [E1|L1|G1].
+    - rewrite E1.
+      assert (C1 : (p j * Z.of_nat n + Z.of_nat i ?= p j * Z.of_nat n + Z.of_nat j) = Lt) by (apply Z.compare_lt_iff; lia).
+      assert (C2 : (p j * Z.of_nat n + (Z.of_nat n - 1 - Z.of_nat i) ?= p j * Z.of_nat n + (Z.of_nat n - 1 - Z.of_nat j)) = Gt) by (apply Z.compare_gt_iff; lia).
+      rewrite C1, C2. lia.
+    - assert (C1 : (p i * Z.of_nat n + Z.of_nat i ?= p j * Z.of_nat n + Z.of_nat j) = Lt) by (apply Z.compare_lt_iff; nia).
+      assert (C2 : (p i * Z.of_nat n + (Z.of_nat n - 1 - Z.of_nat i) ?= p j * Z.of_nat n + (Z.of_nat n - 1 - Z.of_nat j)) = Lt) by (apply Z.compare_lt_iff; nia).
+      rewrite C1, C2. lia.
+    - assert (C1 : (p i * Z.of_nat n + Z.of_nat i ?= p j * Z.of_nat n + Z.of_nat j) = Gt) by (apply Z.compare_gt_iff; nia).
+      assert (C2 : (p i * Z.of_nat n + (Z.of_nat n - 1 - Z.of_nat i) ?= p j * Z.of_nat n + (Z.of_nat n - 1 - Z.of_nat j)) = Gt) by (apply Z.compare_gt_iff; nia).
+      rewrite C1, C2. lia.
+  Qed.
+
+  Lemma up_inj p i j : (i < n)%nat -> (j < n)%nat -> i <> j -> up p i <> up p j.
+  Proof. intros Hi Hj Hn. unfold up. destruct (Z.lt_trichotomy (p i) (p j)) as [L|[E|G]]; [nia|rewrite E; lia|nia]. Qed.
+  Lemma down_inj p i j : (i < n)%nat -> (j < n)%nat -> i <> j -> down p i <> down p j.
+  Proof. intros Hi Hj Hn. unfold down. destruct (Z.lt_trichotomy (p i) (p j)) as [L|[E|G]]; [nia|rewrite E; lia|nia]. Qed.
+
+  (** a tie-free position function at least as good as [p] *)
+  Lemma tie_free_better p : exists q, (forall i j, (i < n)%nat -> (j < n)%nat -> i <> j -> q i <> q j) /\
+                                      scoref K (seq 0 n) q <= scoref K (seq 0 n) p.
+  Proof.
+    pose proof (refine_sum p) as S. destruct (Z_le_gt_dec (scoref K (seq 0 n) (up p)) (scoref K (seq 0 n) p)) as [L|G].
+    - exists (up p). split; [apply up_inj|exact L].
+    - exists (down p). split; [apply down_inj|lia].
+  Qed.
+
+  Lemma sat_notie q : (forall i j, (i < n)%nat -> (j < n)%nat -> i <> j -> q i <> q j) ->
+    forallb (sat (v_p q)) (notie_rows n) = true.
+  Proof.
+    intros Hq. apply forallb_forall. intros r Hr. unfold notie_rows in Hr. apply in_map_iff in Hr as ([i j] & <- & Hij).
+    apply ordpairs_seq_lt in Hij. cbn [fst snd]. unfold sat. cbn [r_eq r_rhs]. rewrite lhs_eval. cbn [map zsum fold_right fst snd v_p].
+    destruct (Z.eqb_spec (q i) (q j)) as [E|_]; [exfalso; apply (Hq i j); lia|]. reflexivity.
+  Qed.
+
+  (** main statement for the CPLEX model: decoding any optimal feasible point of the program WITH the no-tie rows
+      gives a global optimum *)
+  Theorem ilp_notie_optimal v :
+    feasible n [] v = true -> forallb (sat v) (notie_rows n) = true ->
+    (forall v', feasible n [] v' = true -> forallb (sat v') (notie_rows n) = true -> obj_value K n v <= obj_value K n v') ->
+    wfU (seq 0 n) (decode n v) /\ score K (decode n v) = opt K (seq 0 n) /\ obj_value K n v = opt K (seq 0 n).
+  Proof.
+    intros Hf Hnt Hmin. set (U := seq 0 n). assert (Nd : NoDup U) by apply seq_NoDup.
+    apply feasible_Feas in Hf as F. destruct (decode_score K n [] v M F) as [W E].
+    destruct (opt_attained K U M Nd) as (c & Wc & _ & Ec).
+    destruct (tie_free_better (bucket_id c)) as (q & Hq & Le).
+    assert (HP : forall i j, earlier [] i j -> q i < q j) by (intros i j (P1 & G & P2 & EP & _); destruct P1; discriminate).
+    pose proof (encode_Feas n [] q HP) as Fq. apply feasible_Feas in Fq.
+    pose proof (Hmin _ Fq (sat_notie q Hq)) as Lm. rewrite (encode_obj K n [] q M HP) in Lm. fold U in Lm, Le.
+    rewrite <- (score_on_universe K U c M Wc), Ec in Le.
+    pose proof (opt_lower K U (decode n v) M Nd W) as Ge.
+    split; [exact W|]. split; lia.
+  Qed.
+End NoTie.
